@@ -201,8 +201,46 @@ Theorem C06_resolved_or_woken_by_deadline :
 Proof. exact resolved_or_woken. Qed.
 Print Assumptions C06_resolved_or_woken_by_deadline.
 
-(* A caller that is polled whenever it is woken: its call is resolved by the deadline, and as soon
-   as the inner call has completed. *)
+(* The next poll resolves: whatever the schedule was, once the deadline of a polled, un-cancelled call has
+   been reached or its inner call has completed (any outcome), the next poll of that call resolves
+   it - with the inner outcome if the inner call has completed with ok / error, else, the deadline
+   having been reached, with Timeout. *)
+Theorem C06_next_poll_resolves :
+  forall (c : cfg) (evs : list ev) (i : nat) (a : Z),
+    let s := run c evs in
+    arrival s i = Some a -> ~ In (Drop i) evs ->
+    (deadline c i a <= now s \/ gate s i <> None) ->
+    cs (step_st c s (Poll i)) i = Done.
+Proof. exact next_poll_resolves. Qed.
+Print Assumptions C06_next_poll_resolves.
+
+Theorem C06_next_poll_answer :
+  forall (c : cfg) (evs : list ev) (i : nat) (a : Z),
+    let s := run c evs in
+    arrival s i = Some a -> ~ In (Drop i) evs -> cs s i <> Done ->
+    (forall o, gate s i = Some o -> o <> OPanic -> snd (step c s (Poll i)) = result i o) /\
+    (gate s i = None -> deadline c i a <= now s -> snd (step c s (Poll i)) = timed_out).
+Proof. exact next_poll_answer. Qed.
+Print Assumptions C06_next_poll_answer.
+
+(* The composite for a caller that follows the discipline "poll when woken" (this is where
+   polled_when_woken is used): at any point of such a run where the call is due or its inner call has
+   completed, either the call is resolved already or the very next event is its poll, which resolves
+   it at the same instant. *)
+Theorem C06_polled_when_woken_resolves :
+  forall (c : cfg) (i : nat) (evs : list ev) (e : ev) (rest : list ev) (a : Z),
+    let s := run c evs in
+    polled_when_woken c i (evs ++ e :: rest) ->
+    arrival s i = Some a -> ~ In (Drop i) evs ->
+    (deadline c i a <= now s \/ gate s i <> None) ->
+    cs s i = Done \/
+    (e = Poll i /\ cs (run c (evs ++ [e])) i = Done /\ now (run c (evs ++ [e])) = now s).
+Proof. exact polled_when_woken_resolves. Qed.
+Print Assumptions C06_polled_when_woken_resolves.
+
+(* End-of-run form (uses only the second half of `prompt`: no wake-up outstanding at the end of the
+   run; it is the contrapositive of C06_overdue_or_ready_is_woken for an un-cancelled call): a run
+   that ends with nothing left to do for caller i has its call resolved if it is due or ready. *)
 Theorem C06_by_deadline :
   forall (c : cfg) (evs : list ev) (i : nat) (a : Z),
     let s := run c evs in
